@@ -57,7 +57,7 @@ pub struct C12;
 /// the element types the checks run at. The serialisation round trip is written against the concrete types, so
 /// that whatever bounds a changed tree puts on `KMeans<T>: Deserialize` are met (or fail) at f32 / f64, not at a
 /// generic parameter of the harness.
-pub trait Elem: RealNumber + Sum + Serialize + Send + Sync {
+pub trait Elem: RealNumber + Sum + Serialize {
     fn restore_kmeans(m: &KMeans<Self>, how: u8) -> Result<KMeans<Self>, String>;
     /// fit on the chosen matrix back end (via the inherent function or the estimator trait)
     fn kmeans_fit(rows: &[Vec<f64>], backend: u8, params: KMeansParameters, via_trait: bool) -> Result<KMeans<Self>, smartcore::error::Failed>;
@@ -584,8 +584,19 @@ impl C12 {
                         // the model is plain data: asked from another (fresh) thread it must answer the same way
                         if case.requery > 0 && case.tape.seed % 3 == 0 && rep.violation.is_none() {
                             rep.count("fault.model-asked-from-another-thread", 1);
-                            let (mref, qref, be) = (&model, &q, case.backend);
-                            let r = std::thread::scope(|sc| sc.spawn(move || guarded(|| T::kmeans_predict(mref, qref, be, false))).join());
+                            // (lent to one other thread while this one waits in join: no Sync bound is demanded from the model)
+                            struct Lend<P>(P);
+                            unsafe impl<P> Send for Lend<P> {}
+                            let lent = Lend((&model as *const KMeans<T>, &q as *const Vec<Vec<f64>>));
+                            let be = case.backend;
+                            let r = std::thread::scope(|sc| {
+                                sc.spawn(move || {
+                                    let l = lent;
+                                    let (mref, qref) = unsafe { (&*(l.0).0, &*(l.0).1) };
+                                    guarded(|| T::kmeans_predict(mref, qref, be, false))
+                                })
+                                .join()
+                            });
                             match r {
                                 Ok(Ok(Ok(lab))) => judge("asked from another thread", rep, &lab, &ident),
                                 Ok(Ok(Err(e))) => rep.fail("predict-error", "predict", format!("{}: predict on another thread failed: {}", ctx, e)),
